@@ -121,7 +121,7 @@ class C06(Prop):
                    'event that was already dispatched hangs by design: upstream issue #226)',
                    'when both the result and TimeoutError are permitted either is accepted',
                    'under tick() no generate_events is fired, so time-outs never elapse and the result must win')
-    budget = {'quick': (1500, 4), 'thorough': (10000, 16)}
+    budget = {'quick': (1500, 4), 'thorough': (35000, 16)}
 
     shrink_lists = {'roots': 1, 'handlers': 1, 'actions': 0}
 
